@@ -32,16 +32,20 @@ Theorem C01_event_by_event :
   hrun_each s (map (oconc r log k sq uid) gs) = ospec log k q lr gs.
 Proof. intros r log k sq uid gs s q lr Hk Hinj. exact (o_run r log k sq uid Hk Hinj gs s q lr). Qed.
 
-(* ANY NUMBER n of segmented messages in flight at the same time (distinct segmentation references and sequence numbers, each with
-   any number >= 2 of segments), ANY interleaving of their events: restricted to the events of message j, the hooks see exactly what
-   they would see if message j were alone - so every message gets exactly one outcome, carrying its own log, once all its segments
-   are processed, and nothing before; what the other messages do in between cannot change, duplicate, suppress or borrow it *)
+(* ANY NUMBER n of segmented messages in flight at the same time - distinct sequence numbers, each with any number >= 2 of segments, and
+   ANY segmentation references, also EQUAL ones (the 8-bit reference is re-used after 256 messages: the status cell of a message is keyed
+   by its reference together with the sequence number of its first segment) - and ANY interleaving of their events in which the segments
+   of two messages with the same reference are not stored interleaved (the sender stores one message after the other): restricted to
+   the events of message j, the hooks see exactly what they would see if message j were alone - so every message gets exactly one
+   outcome, carrying its own log, once all its segments are processed, and nothing before; what the other messages do in between cannot
+   change, duplicate, suppress or borrow it *)
 Theorem C01_concurrent_messages :
   forall (n : nat) (D : nat -> mdesc),
   (forall j, (j < n)%nat ->
-     (2 <= md_k (D j))%nat /\ forall a b, (a < md_k (D j))%nat -> (b < md_k (D j))%nat -> md_sq (D j) a = md_sq (D j) b -> a = b) ->
+     (2 <= md_k (D j))%nat /\ 0 <= md_r (D j) < 65536
+     /\ forall a b, (a < md_k (D j))%nat -> (b < md_k (D j))%nat -> md_sq (D j) a = md_sq (D j) b -> a = b) ->
   (forall i j, (i < n)%nat -> (j < n)%nat -> i <> j ->
-     md_r (D i) <> md_r (D j) /\ forall a b, (a < md_k (D i))%nat -> (b < md_k (D j))%nat -> md_sq (D i) a <> md_sq (D j) b) ->
+     forall a b, (a < md_k (D i))%nat -> (b < md_k (D j))%nat -> md_sq (D i) a <> md_sq (D j) b) ->
   forall (gs : list gev) (j : nat),
   gvalid n D (fun _ _ => QNot) (fun _ => None) gs -> (j < n)%nat ->
   pick j gs (hrun_each hinit (map (gconc D) gs)) = ospec (md_log (D j)) (md_k (D j)) (fun _ => QNot) None (proj j gs)
@@ -50,25 +54,28 @@ Theorem C01_concurrent_messages :
              (concat (pick j gs (hrun_each hinit (map (gconc D) gs)))).
 Proof. exact concurrent_outcomes. Qed.
 
-(* non-vacuity of the concurrent statement: two messages of two segments each, fully interleaved; message 0 is accepted, message 1
-   has its second segment rejected - the run is valid, and the hooks see one success for log 7 and one failure for log 8 *)
+(* non-vacuity of the concurrent statement: two messages of two segments each UNDER THE SAME REFERENCE 5, both in flight, responses
+   interleaved; message 0 is accepted, message 1 has its second segment rejected - the run is valid, and the hooks see one success for
+   log 7 and one failure for log 8 *)
 Example C01_concurrent_nonvacuous :
   let D := fun j => match j with
                     | O => {| md_r := 5; md_log := 7; md_k := 2; md_sq := fun i => 101 + Z.of_nat i; md_uid := fun i => 10 + Z.of_nat i |}
-                    | _ => {| md_r := 6; md_log := 8; md_k := 2; md_sq := fun i => 201 + Z.of_nat i; md_uid := fun i => 20 + Z.of_nat i |}
+                    | _ => {| md_r := 5; md_log := 8; md_k := 2; md_sq := fun i => 201 + Z.of_nat i; md_uid := fun i => 20 + Z.of_nat i |}
                     end in
   let ok u sq := {| rs_uid := u; rs_cmd := 2147483652; rs_seq := sq; rs_status := 0 |} in
-  let gs := [(0%nat, OPut 0); (1%nat, OPut 0); (1%nat, OPut 1); (0%nat, OResp 0 (ok 31 101) 501); (0%nat, OPut 1);
+  let gs := [(0%nat, OPut 0); (0%nat, OPut 1); (1%nat, OPut 0); (0%nat, OResp 0 (ok 31 101) 501); (1%nat, OPut 1);
              (1%nat, OResp 1 {| rs_uid := 32; rs_cmd := 2147483652; rs_seq := 202; rs_status := 88 |} 0);
              (0%nat, OResp 1 (ok 33 102) 502); (1%nat, OResp 0 (ok 34 201) 503)] in
   gvalid 2 D (fun _ _ => QNot) (fun _ => None) gs
   /\ concat (hrun_each hinit (map (gconc D) gs)) = [HRaw; HRaw; HResp 31 7 2147483652 0; HResp 32 8 2147483652 88].
 Proof.
   cbn zeta. split.
-  - cbn. unfold upd, qupd. cbn. repeat split; try lia; try reflexivity; try discriminate; try (left; reflexivity);
+  - cbn. unfold upd, qupd, storing. cbn. repeat split; try lia; try reflexivity; try discriminate; try (left; reflexivity);
       try (cbn; lia); try (cbn; discriminate);
       try (intros i Hi Hne r'' E; destruct i as [|[|i]]; try lia; try congruence; cbn in E; try discriminate;
-           injection E as <-; cbn; discriminate).
+           injection E as <-; cbn; discriminate);
+      try (cbn [snd fst]; intros i Hi Hne _ [H0 (a & Ha & Hq)]; destruct i as [|[|i]]; try lia; try congruence; cbn in H0, Ha, Hq;
+           destruct a as [|[|a]]; cbn in Hq; try discriminate; try lia; apply H0; reflexivity).
   - vm_compute. reflexivity.
 Qed.
 
